@@ -25,6 +25,9 @@ type Cmd struct {
 	// P: this command is sent in one write together with the previous one
 	// (pipelining, no wait for the reply).
 	P bool `json:"p"`
+	// Pre: events of the environment (Session!EnvStep: wait | storm | peer+ | peer-) that happen
+	// after the reply to the previous command, before the client sends this one.
+	Pre []string `json:"pre"`
 }
 
 // tapConn is an in-memory net.Conn handed to the go-smtp server through an
@@ -40,6 +43,8 @@ type tapConn struct {
 	lines   func(c Cmd, bdatSeen bool) (line string, payload []byte) // wire form
 	body    func(kind string) (data []byte, cut bool)
 	permits func() map[string]int
+	env     func(kind string) // performs one environment event (logs it itself)
+	tailEnv []string          // environment events after the last scripted command
 
 	mu       sync.Mutex
 	idx      int    // next script position
@@ -77,6 +82,17 @@ func (c *tapConn) Close() error {
 		close(c.done)
 	}
 	return nil
+}
+
+// curRcpt returns the recipient id of the RCPT command the server is processing ("" if it is
+// processing something else).
+func (c *tapConn) curRcpt() string {
+	c.mu.Lock()
+	defer c.mu.Unlock()
+	if c.cur != nil && c.cur.V == "RCPT" {
+		return c.cur.R
+	}
+	return ""
 }
 
 func (c *tapConn) logCmd(cmd Cmd) {
@@ -124,6 +140,19 @@ func (c *tapConn) Read(p []byte) (int, error) {
 				// the server asks for more input although commands it already
 				// has are unanswered: cannot happen with a line-based server
 				return 0, errors.New("tapconn: read while pipelined commands are pending")
+			}
+			// the server is idle and asks for the next command: the environment acts first
+			if c.env != nil {
+				pre := c.tailEnv
+				if c.idx < len(c.script) {
+					pre = c.script[c.idx].Pre
+					c.script[c.idx].Pre = nil
+				} else {
+					c.tailEnv = nil
+				}
+				for _, k := range pre {
+					c.env(k)
+				}
 			}
 			if c.idx >= len(c.script) || c.script[c.idx].V == "DROP" {
 				c.logCmd(Cmd{V: "DROP"})
